@@ -293,6 +293,7 @@ class Ctx:
         """K step for a batch: impl, model, judge.  Returns list of (case, triple, answer)."""
         prep = getattr(self, "prepare", None)
         sent = [prep(c) for c in cases] if prep else cases
+        self._bin = bin
         triples = self.run_impl(sent, bin)
         answers = self.run_model(triples)
         self.ties[tie] = self.ties.get(tie, 0) + len(cases)
@@ -322,7 +323,7 @@ class Ctx:
                     for k in j["known"]:
                         self.known_seen.setdefault(k, {"case": case, "impl": triple["impl"], "why": j.get("why", "")})
                 elif not j["known"]:
-                    c = self.shrink(case, tie, bin=case.get("_bin", "hk")) if shrink else case
+                    c = self.shrink(case, tie, bin=getattr(self, "_bin", "hk")) if shrink else case
                     self.violations.append({"case": c, "original": case, "impl": triple["impl"], "why": j.get("why", "")})
 
     # ---------------- shrinking ----------------
